@@ -6,6 +6,7 @@ fn main() {
     let args: Vec<String> = std::env::args().collect();
     match args.get(1).map(|s| s.as_str()) {
         Some("trim") => trim(&args[2]),
+        Some("pp") => pp(&args[2], args.get(3).map(|s| s == "strip").unwrap_or(false)),
         _ => { eprintln!("usage: vreplay trim SRC"); std::process::exit(2); }
     }
 }
@@ -17,5 +18,20 @@ fn trim(src: &str) {
         if let RefNode::Keyword(k) = n {
             println!("keyword get_str={:?} get_str_trim={:?}", tree.get_str(k), tree.get_str_trim(k));
         }
+    }
+}
+
+fn pp(src: &str, strip: bool) {
+    let defines: HashMap<String, Option<Define>> = HashMap::new();
+    match preprocess_str(src, PathBuf::from("t.sv"), &defines, &[""], false, strip, 0, 0) {
+        Ok((t, d)) => {
+            println!("TEXT {:?}", t.text());
+            let mut o = vec![];
+            for i in 0..t.text().len() { o.push(t.origin(i).map(|(p, q)| (p.to_string_lossy().to_string(), q))); }
+            println!("ORIGINS {:?}", o);
+            let mut k: Vec<_> = d.keys().filter(|k| !k.starts_with("SV_COV")).cloned().collect(); k.sort();
+            println!("DEFINES {:?}", k);
+        }
+        Err(e) => println!("ERR {:?}", e),
     }
 }
